@@ -402,6 +402,12 @@ let run_case (c : case) =
        go BigZ.zero src
    | "parse" ->
        (match print_parse_result (parse src) with Some p -> print_parsed p | None -> ())
+   | "xcheck" ->
+       (* the extraction cross-check: the flat integer encoding of the whole case (XCheck.v) *)
+       let sc = { sc_layout = List.map nat_of_int c.layout; sc_table = c.table; sc_echo = c.echo;
+                  sc_faults = List.map (fun (k, f) -> (nat_of_int k, f)) c.faults } in
+       let r = xcheck src c.sigs sc c.wdefault (nat_of_int c.fuel) (nat_of_int c.max) in
+       pr "XCHECK %s\n" (String.concat " " (List.map zs r))
    | "run" | "static" | "bind" ->
        (match print_parse_result (parse src) with
         | None -> ()
